@@ -374,3 +374,45 @@ def lived_in(make, vals, seed):
         pass
     LIVED_REALISED[1] += 1
     return make(list(vals))
+
+
+def lived_in_table(make, cols, seed, warm=None):
+    """Table counterpart of lived_in: `make(cols)` builds a table from a list of value lists; the table first
+    holds its rows in another order, `warm(table)` runs whatever should be given the chance to remember something
+    (a join, a sort, an aggregate ... - its result is discarded), then every cell is moved into place by in-place
+    writes through the live column objects, twice (the storage tuple a memo may be keyed on is freed by the first
+    write and its identity handed out again by the second).  Returns (table, realised?)."""
+    import random
+    n = len(cols[0]) if cols else 0
+    if n < 2 or any(len(c) != n for c in cols):
+        return make(cols), False
+    rng = random.Random(seed)
+    perm = list(range(n))
+    while perm == list(range(n)):
+        rng.shuffle(perm)
+    try:
+        t = make([[c[p] for p in perm] for c in cols])
+        if warm is not None:
+            try:
+                warm(t)
+            except Exception:                                # noqa: BLE001
+                pass
+        live = t._underlying
+        for _pass in (0, 1):
+            for j, c in enumerate(cols):
+                for i in range(n):
+                    if _pass == 1 or perm[i] != i:
+                        live[j][i] = c[i]
+        fresh = make(cols)
+        ok = len(t._underlying) == len(fresh._underlying) and all(
+            len(a._underlying) == len(b._underlying) and repr(a.schema()) == repr(b.schema())
+            and all(type(x) is type(y) and (x is y or x == y or (x != x and y != y))
+                    for x, y in zip(a._underlying, b._underlying))
+            for a, b in zip(t._underlying, fresh._underlying))
+        if ok:
+            LIVED_REALISED[0] += 1
+            return t, True
+    except Exception:                                        # noqa: BLE001
+        pass
+    LIVED_REALISED[1] += 1
+    return make(cols), False
